@@ -345,6 +345,59 @@ fn format_number_js(n: f64) -> String {
     crate::value::number_to_string(n)
 }
 
+/// Digits (most significant first) of a non-negative integral double in a radix of 2 to 36,
+/// exact for any magnitude: the integer is held as base-2^32 limbs and divided down.
+fn integer_digits_in_radix(n: f64, radix: u32) -> Vec<u8> {
+    const DIGITS: &[u8] = b"0123456789abcdefghijklmnopqrstuvwxyz";
+
+    // n = mantissa * 2^exponent exactly
+    let bits = n.to_bits();
+    let biased_exponent = ((bits >> 52) & 0x7ff) as i32;
+    let fraction = bits & ((1u64 << 52) - 1);
+    let (mantissa, exponent) = if biased_exponent == 0 {
+        (fraction, -1074)
+    } else {
+        (fraction | (1u64 << 52), biased_exponent - 1075)
+    };
+    // An integer: either a left shift, or the bits shifted out on the right are all zero
+    let (mantissa, shift) = if exponent >= 0 {
+        (mantissa, exponent as u32)
+    } else {
+        (
+            mantissa.checked_shr(exponent.unsigned_abs()).unwrap_or(0),
+            0,
+        )
+    };
+
+    // Little-endian limbs of mantissa << shift
+    let mut limbs: Vec<u32> = vec![0; (shift / 32) as usize];
+    let wide = (mantissa as u128) << (shift % 32);
+    limbs.extend([wide as u32, (wide >> 32) as u32, (wide >> 64) as u32]);
+
+    let mut digits = Vec::new();
+    loop {
+        // limbs /= radix; the remainder is the next digit from the right
+        let mut remainder: u64 = 0;
+        for limb in limbs.iter_mut().rev() {
+            let current = (remainder << 32) | *limb as u64;
+            *limb = (current / radix as u64) as u32;
+            remainder = current % radix as u64;
+        }
+        // radix is at most 36, so the remainder is always 0-35
+        if let Some(&ch) = DIGITS.get(remainder as usize) {
+            digits.push(ch);
+        }
+        while limbs.last() == Some(&0) {
+            limbs.pop();
+        }
+        if limbs.is_empty() {
+            break;
+        }
+    }
+    digits.reverse();
+    digits
+}
+
 // Number.prototype.toString
 pub fn number_to_string(
     interp: &mut Interpreter,
@@ -373,36 +426,12 @@ pub fn number_to_string(
         ))));
     }
 
-    let int_val = n as i64;
-    let result = match radix {
-        2 => format!("{:b}", int_val.abs()),
-        8 => format!("{:o}", int_val.abs()),
-        16 => format!("{:x}", int_val.abs()),
-        _ => {
-            // Generic radix conversion
-            const DIGITS: &[u8] = b"0123456789abcdefghijklmnopqrstuvwxyz";
-            let mut num = int_val.abs();
-            let mut result = String::new();
-            while num > 0 {
-                let digit_idx = (num % radix as i64) as usize;
-                // radix is validated to be 2-36, so digit_idx is always 0-35
-                if let Some(&ch) = DIGITS.get(digit_idx) {
-                    result.insert(0, ch as char);
-                }
-                num /= radix as i64;
-            }
-            if result.is_empty() {
-                result = "0".to_string();
-            }
-            result
-        }
-    };
-
-    let result = if int_val < 0 {
-        format!("-{}", result)
-    } else {
-        result
-    };
+    let digits = integer_digits_in_radix(n.abs(), radix as u32);
+    let mut result = String::new();
+    if n < 0.0 {
+        result.push('-');
+    }
+    result.extend(digits.iter().map(|d| *d as char));
 
     Ok(Guarded::unguarded(JsValue::String(JsString::from(result))))
 }
